@@ -14,6 +14,9 @@ CHECKS = {
  "C05": dict(technique="runtime monitoring: reference-model oracle (independent OAS style serializer as the inverse, reference schema evaluator for the verdict) observing the decode hook and ValidateParameter on routed requests",
    text="For every legal (in, style, explode) cell incl. omitted defaults x shape x value x presence x required-ness, with and without unrelated neighbouring parameters and for several parameter names, the request is built by an independent serializer, routed by the real router, decoded through the verif hook (must equal the serialised value) and validated (verdict must equal the reference: schema verdict, missing-required, absent-optional, wrong-lexical-class => ParseError, structural garbage => rejected). Held on the executions in evidence.",
    note="Trusts gen/style.go as a reading of the OAS 3.0.3 style table and internal/refeval; values with the cell's own delimiters, empty strings and empty arrays are excluded (undefined serialisation); lenient numeric/boolean spellings are not judged. Uses the verif hook VerifDecodeStyledParameter.", ref="4 C05"),
+ "C06": dict(technique="runtime monitoring: reference-model oracles (media-type precedence model observed through per-entry distinguishing schemas; independent body encoders; as-request reference evaluator) over ValidateRequest executions",
+   text="Selection: all 127 subsets of 7 declared media-type keys x 11 Content-Type headers x every index body: the accepted index reveals the entry the library selected and must equal the documented precedence; undeclared types and required/optional empty bodies. Decoding/reading: JSON bodies over C01's schema space and over readOnly/writeOnly/required/default combinations x option sets, form-urlencoded/multipart/text bodies from independent encoders incl. fields of the wrong lexical class; verdict must equal the as-request reference. Held on the executions in evidence.",
+   note="Absent Content-Type with */* declared and wildcard-selected types without a registered decoder are contested (no verdict). Trusts internal/refeval and the harness encoders.", ref="4 C06"),
 }
 NOT_YET = {}
 def main():
